@@ -117,6 +117,8 @@ func C09(c *Ctx) {
 				fmt.Sprintf("%s is held here and acquired again via %s: self-deadlock", d.Lock.Path, d.Acq.Via))
 		}
 	}
+	c09LockOrder(c)
+	c09NilConsistency(c, fns)
 	r.Count("functions_reachable", len(fns))
 	r.Count("sites", total)
 	_ = strings.Join
